@@ -753,8 +753,8 @@ func (c *Ctx) RuleC5(in func(*ssa.Function) bool) {
 				}
 				guarded := false
 				for _, ce := range ir.DominatingConds(fn, u.Block()) {
-					if v, nilWhenTrue, ok := ir.NilCheck(ce.If.Cond); ok && v == ssa.Value(call) {
-						succTrue := fn.Blocks[ce.Edge.From].Succs[0].Index == ce.Edge.To
+					if v, nilWhenTrue, ok := ir.NilCheck(ce.RawCond); ok && v == ssa.Value(call) {
+						succTrue := ce.RawTruth
 						if succTrue != nilWhenTrue {
 							guarded = true
 						}
